@@ -679,6 +679,11 @@ func (en *extensionNode) getNextHashAndKey(key []byte) (bool, []byte, []byte) {
 		return false, nil, nil
 	}
 
+	// the key must continue with the extension's own key segment
+	if len(key) < len(en.Key) || !bytes.Equal(key[:len(en.Key)], en.Key) {
+		return false, nil, nil
+	}
+
 	nextKey := key[len(en.Key):]
 	wantHash := en.EncodedChild
 
